@@ -130,3 +130,11 @@ impl<T: TreeHash + Clone> PackedLeaf<T> {
         Ok(())
     }
 }
+
+#[cfg(feature = "verif")]
+impl<T: TreeHash + Clone> PackedLeaf<T> {
+    /// The values packed into this leaf.
+    pub fn verif_values(&self) -> &[T] {
+        &self.values
+    }
+}
